@@ -14,6 +14,12 @@ import (
 // waitCopy waits until the follower on fport reports caught up with the marker present and then equals the leader on
 // lport (dump and aof_size). It returns "" when that happened within the deadline, else a description.
 func waitCopy(lport, fport int, marker string, deadline time.Duration) string {
+	return waitCopy2(lport, fport, marker, deadline, false)
+}
+
+// waitCopy2: noaof = the follower runs with --appendonly no: it has no log, its aof_size stays 0 (model: FollowGen
+// gdeliver with c_aof = false touches the dataset only) and only the dumps are compared.
+func waitCopy2(lport, fport int, marker string, deadline time.Duration, noaof bool) string {
 	dl := time.Now().Add(deadline)
 	ok := false
 	var last status
@@ -36,7 +42,7 @@ func waitCopy(lport, fport int, marker string, deadline time.Duration) string {
 	for dl2 := time.Now().Add(5 * time.Second); time.Now().Before(dl2); time.Sleep(100 * time.Millisecond) {
 		ld, _ = dumpOf(lport)
 		fd, _ = dumpOf(fport)
-		if ld == fd && ld != "" && aofSizeOf(lport) == aofSizeOf(fport) {
+		if ld == fd && ld != "" && ((!noaof && aofSizeOf(lport) == aofSizeOf(fport)) || (noaof && aofSizeOf(fport) == 0)) {
 			return ""
 		}
 	}
